@@ -156,9 +156,9 @@ func H_C07_dotted() {
 
 // H_C07_exact: parts match keys and field names exactly (case, no trimming).
 type sC07 struct {
-	Name string
+	Name  string
 	name2 string
-	Tag  string `bexpr:"tag"`
+	Tag   string `bexpr:"tag"`
 }
 
 func H_C07_exact() {
